@@ -124,7 +124,16 @@ func c13Specs(tier string) []*Spec {
 		specs = append(specs, &Spec{Weight: wt, ID: "C13", Name: name, Cfg: defaultCfg, Keys: keys, Vals: [][]byte{bl(127, 'v'), bl(128, 'w'), bl(16384, 'x')}, MaxDepth: depth, MaxMaint: 1,
 			Alphabet: a.Ops, Oracles: []Oracle{oracleFormat(), oracleEncodedDB(keys), oracleFresh(oracleReads(keys))}})
 	}
+	// hash / proof queries on the uncommitted working tree between writes (they memoise hashes on unsaved nodes;
+	// what is then written must still carry the hashes of the final tree)
+	addHQ := func(name string, depth, wt int) {
+		a := Alpha{Writes: true, Save: true, HashReads: true}
+		keys := bs("a", "ab", "b", "c")
+		specs = append(specs, &Spec{Weight: wt, ID: "C13", Name: name, Cfg: defaultCfg, Keys: keys, Vals: bs("x"), MaxDepth: depth, MaxMaint: 0, UnboundedReads: true,
+			Alphabet: a.Ops, Oracles: []Oracle{oracleFormat()}})
+	}
 	if tier == "quick" {
+		addHQ("hashquery/4keys/d6", 6, 6)
 		add("default/3keys/d6", defaultCfg, k3, 6, 2, 10)
 		add("nofast/3keys/d5", Cfg{Fast: false}, k3, 5, 2, 2)
 		add("longkey/d4", defaultCfg, [][]byte{[]byte("a"), long, {0xff, 0x00}}, 4, 1, 2)
@@ -134,6 +143,7 @@ func c13Specs(tier string) []*Spec {
 		addB("boundary-lengths/d3", 3, 3)
 		return specs
 	}
+	addHQ("hashquery/4keys/d8", 8, 20)
 	add("default/3keys/d7", defaultCfg, k3, 7, 2, 30)
 	add("nofast/3keys/d6", Cfg{Fast: false}, k3, 6, 2, 8)
 	add("longkey/d5", defaultCfg, [][]byte{[]byte("a"), long, {0xff, 0x00}}, 5, 2, 4)
